@@ -610,8 +610,95 @@ var scenarios = []scenario{
 		s.do(b, putroot(), openName("o1", "a", shRW, "NOCREATE"), getfh())
 		s.do(a, putfh(s.fh(1)), lockNew(a.open("o1", s.fh(1)).sid, "L", "W", 0, 1))
 		s.do(a, putfh(s.fh(1)), lockNew(a.open("o2", s.fh(1)).sid, "L", "W", 2, 3))
-		s.do(a, putfh(s.fh(1)), closeOp(a.open("o1", s.fh(1)).sid))
+		l := a.lock("o1", "L", s.fh(1))
+		s.do(a, putfh(s.fh(1)), closeOp(a.open("o1", s.fh(1)).sid)) // takes the shared lock state and all of L's locks along
 		s.do(b, putfh(s.fh(1)), lockt("x", "W", 0, 4))
+		s.do(a, putfh(s.fh(1)), locku(l.sid, 2, 3)) // through the shared lock state after its open was closed
+		s.do(a, testSids(l.sid))
+		s.do(a, putfh(s.fh(1)), lockNew(a.open("o2", s.fh(1)).sid, "L", "W", 1, 2)) // new lock state, now under o2
+		s.do(b, putfh(s.fh(1)), lockt("x", "W", 0, 4))
+		s.do(a, putfh(s.fh(1)), closeOp(a.open("o2", s.fh(1)).sid))
+		s.do(b, putfh(s.fh(1)), lockt("x", "W", 0, 4))
+	}},
+	{"two-lofs-close-other-first", func(s *script) {
+		// The open through which the second LOCK came is closed first:
+		// the lock state (and every lock of L) stays with the first open.
+		a := s.client("A", 1)
+		b := s.client("B", 1)
+		s.do(a, putroot(), openName("o1", "a", shRW, "NOCREATE"), getfh())
+		s.do(a, putroot(), openName("o2", "a", shRW, "NOCREATE"), getfh())
+		s.do(b, putroot(), openName("o1", "a", shRW, "NOCREATE"), getfh())
+		s.do(a, putfh(s.fh(1)), lockNew(a.open("o1", s.fh(1)).sid, "L", "W", 0, 1))
+		s.do(a, putfh(s.fh(1)), lockNew(a.open("o2", s.fh(1)).sid, "L", "W", 2, 3))
+		s.do(a, putfh(s.fh(1)), closeOp(a.open("o2", s.fh(1)).sid))
+		s.do(b, putfh(s.fh(1)), lockt("x", "W", 0, 1))
+		s.do(b, putfh(s.fh(1)), lockt("x", "W", 2, 3))
+		s.do(b, putfh(s.fh(1)), lockt("x", "W", 1, 2))
+		l := a.lock("o1", "L", s.fh(1))
+		s.do(a, putfh(s.fh(1)), locku(l.sid, 2, 3))
+		s.do(b, putfh(s.fh(1)), lockNew(b.open("o1", s.fh(1)).sid, "L", "W", 2, 4))
+		s.do(a, putfh(s.fh(1)), closeOp(a.open("o1", s.fh(1)).sid))
+		s.do(b, putfh(s.fh(1)), lockNew(b.open("o1", s.fh(1)).sid, "L", "W", 0, 4))
+	}},
+	{"shared-lock-state-lease-expiry", func(s *script) {
+		a := s.client("A", 1)
+		b := s.client("B", 1)
+		s.do(a, putroot(), openName("o1", "a", shRW, "NOCREATE"), getfh())
+		s.do(a, putroot(), openName("o2", "a", shRW, "NOCREATE"), getfh())
+		s.do(b, putroot(), openName("o1", "a", shR, "NOCREATE"), getfh())
+		s.do(a, putfh(s.fh(1)), lockNew(a.open("o1", s.fh(1)).sid, "L", "W", 0, 1))
+		s.do(a, putfh(s.fh(1)), lockNew(a.open("o2", s.fh(1)).sid, "L", "W", 2, 3))
+		s.do(a, putfh(s.fh(1)), lockNew(a.open("o2", s.fh(1)).sid, "M", "R", 1, 2)) // M only through o2
+		s.e.advance(6)
+		s.do(b, putfh(s.fh(1)), lockt("x", "W", 0, 4))
+		s.e.advance(6) // A is past its lease, B is not
+		s.do(b, putfh(s.fh(1)), lockNew(b.open("o1", s.fh(1)).sid, "L", "W", 0, 4))
+	}},
+	{"shared-lock-state-merge", func(s *script) {
+		// The LOCK that comes through the second open merges the ranges
+		// that the lock-owner took through the first one: the number of
+		// table entries goes down, in the one shared lock state.
+		a := s.client("A", 1)
+		b := s.client("B", 1)
+		s.do(a, putroot(), openName("o1", "a", shRW, "NOCREATE"), getfh())
+		s.do(a, putroot(), openName("o2", "a", shRW, "NOCREATE"), getfh())
+		s.do(b, putroot(), openName("o1", "a", shRW, "NOCREATE"), getfh())
+		o1, o2 := a.open("o1", s.fh(1)), a.open("o2", s.fh(1))
+		s.do(a, putfh(s.fh(1)), lockNew(o1.sid, "L", "W", 0, 1))
+		l := a.lock("o1", "L", s.fh(1))
+		s.do(a, putfh(s.fh(1)), lockMore(l.sid, "W", 2, 3))
+		s.do(a, putfh(s.fh(1)), lockNew(o2.sid, "L", "W", 0, 4)) // three entries become one
+		s.do(a, putfh(s.fh(1)), locku(l.sid, 1, 2))              // and two again
+		s.do(a, freeSid(l.sid))
+		s.do(b, putfh(s.fh(1)), lockt("x", "R", 1, 2))
+		s.do(b, putfh(s.fh(1)), lockt("x", "R", 0, 1))
+		s.do(a, putfh(s.fh(1)), closeOp(o2.sid))
+		s.do(b, putfh(s.fh(1)), lockt("x", "R", 2, 4))
+		s.do(a, putfh(s.fh(1)), closeOp(o1.sid))
+		s.do(b, putfh(s.fh(1)), lockNew(b.open("o1", s.fh(1)).sid, "L", "W", 0, 4))
+	}},
+	{"shared-lock-state-free-stateid", func(s *script) {
+		a := s.client("A", 1)
+		s.do(a, putroot(), openName("o1", "a", shR, "NOCREATE"), getfh()) // the first open can only read
+		s.do(a, putroot(), openName("o2", "a", shRW, "NOCREATE"), getfh())
+		o1, o2 := a.open("o1", s.fh(1)), a.open("o2", s.fh(1))
+		s.do(a, putfh(s.fh(1)), lockNew(o1.sid, "L", "R", 0, 1))
+		s.do(a, putfh(s.fh(1)), lockNew(o2.sid, "L", "W", 2, 3))
+		l := a.lock("o1", "L", s.fh(1))
+		s.do(a, putfh(s.fh(1)), read(l.sid))
+		s.do(a, putfh(s.fh(1)), write(l.sid, "w")) // the lock state has the share reservation of the open it was created under
+		s.do(a, freeSid(l.sid))                    // locks held
+		s.do(a, putfh(s.fh(1)), locku(l.sid, 0, 1))
+		s.do(a, freeSid(l.sid)) // still one lock, taken through o2
+		s.do(a, putfh(s.fh(1)), locku(l.sid, 0, 4))
+		s.do(a, freeSid(l.sid))
+		s.do(a, testSids(l.sid))
+		s.do(a, putfh(s.fh(1)), lockNew(o2.sid, "L", "W", 2, 3)) // new lock state, under o2
+		s.do(a, putfh(s.fh(1)), closeOp(o1.sid))
+		l2 := a.lock("o2", "L", s.fh(1))
+		s.do(a, putfh(s.fh(1)), write(l2.sid, "w"))
+		s.do(a, putfh(s.fh(1)), locku(l2.sid, 2, 3))
+		s.do(a, putfh(s.fh(1)), closeOp(o2.sid))
 	}},
 }
 
